@@ -52,5 +52,6 @@ def run(chk, replay=None):
     C.trees_check(chk, drv, want_identity=False)
     C.documents_check(chk, want_identity=False, drv=drv)
     C.tableless_kwargs_check(chk)
+    C.loaded_samples_check(chk)
     C.histories_check(chk, drv)
     return chk.finish()
